@@ -48,6 +48,40 @@ def ownerOf : Node → Nat × Nat
   | .link _ u g => (u, g)
   | .dir => (0, 0)
 
+def isLinkNode : Node → Bool
+  | .link _ _ _ => true
+  | _ => false
+
+/-- The checks of `read_file_with_callback` between `lstat` and the callback, in their order:
+    symbolic link, owner, group.  `none` = the file passes. -/
+def gate (g : Global) (node : Node) : Option Err :=
+  if !g.allowSymlinks && isLinkNode node then some .fileIsSymLink
+  else if g.ownerSet && (ownerOf node).1 != g.owner then some .wrongOwner
+  else if g.groupSet && (ownerOf node).2 != g.group then some .wrongGroup
+  else none
+
+/-- The file is open: read and parse it, record the error location. -/
+def readOpened (ctx : RdCtx) (s : RdState) (join python : Bool) (abs delim comment : Str) :
+    RdState × Except Err KeyFile :=
+  match ctx.fs.read abs with
+  | none => (s, .error .nofile)
+  | some content =>
+    let s := { s with g := { s.g with errFile := abs } }
+    let cfg : Cfg := { delim := delim, comment := comment, python := python, join := join }
+    let nLines := lineCount content
+    match parseBytes cfg content with
+    | .error (e, line) =>
+      ({ s with g := { s.g with errLine := line } }, .error e)
+    | .ok st =>
+      let s := if nLines > 0 then { s with g := { s.g with errLine := nLines } } else s
+      (s, .ok { entries := st.entries, groups := st.groups,
+                delim := delim.headD 0, comment := (comment.head?).getD 0x23,
+                path := some abs, join := join, python := python })
+
+/-- absolute path as `get_absolute_path` computes it -/
+def absPath (fs : FS) (path : Str) : Option Str :=
+  if path.head? == some SLASH then some path else fs.realpath path
+
 /-- `read_file_with_callback` on a fresh object carrying the flags `join`/`python`.
     Returns the object on success. -/
 def readFileCB (ctx : RdCtx) (s : RdState) (join python : Bool) (path delim comment : Str) :
@@ -55,39 +89,18 @@ def readFileCB (ctx : RdCtx) (s : RdState) (join python : Bool) (path delim comm
   match ctx.fs.lstat path with
   | none => (s, .error .nofile)
   | some node =>
-    let isLink := match node with
-      | .link _ _ _ => true
-      | _ => false
-    let (uid, gid) := ownerOf node
-    if !s.g.allowSymlinks && isLink then (s, .error .fileIsSymLink)
-    else if s.g.ownerSet && uid != s.g.owner then (s, .error .wrongOwner)
-    else if s.g.groupSet && gid != s.g.group then (s, .error .wrongGroup)
-    else
+    match gate s.g node with
+    | some e => (s, .error e)
+    | none =>
       -- the caller's check
       let (s, accepted) := match ctx.cb with
         | none => (s, true)
         | some f => ({ s with trace := s.trace ++ [Event.cb path], calls := s.calls + 1 }, f s.calls path)
       if !accepted then (s, .error .parsingCallbackFailed)
       else
-        let abs := if path.head? == some SLASH then some path else ctx.fs.realpath path
-        match abs with
+        match absPath ctx.fs path with
         | none => (s, .error .nofile)
-        | some abs =>
-          let s := { s with trace := s.trace ++ [Event.openFile abs] }
-          match ctx.fs.read abs with
-          | none => (s, .error .nofile)
-          | some content =>
-            let s := { s with g := { s.g with errFile := abs } }
-            let cfg : Cfg := { delim := delim, comment := comment, python := python, join := join }
-            let nLines := lineCount content
-            match parseBytes cfg content with
-            | .error (e, line) =>
-              ({ s with g := { s.g with errLine := line } }, .error e)
-            | .ok st =>
-              let s := if nLines > 0 then { s with g := { s.g with errLine := nLines } } else s
-              (s, .ok { entries := st.entries, groups := st.groups,
-                        delim := delim.headD 0, comment := (comment.head?).getD 0x23,
-                        path := some abs, join := join, python := python })
+        | some abs => readOpened ctx { s with trace := s.trace ++ [Event.openFile abs] } join python abs delim comment
 
 /-- dotted suffix -/
 def dotSuffix (name suffix : Option Str) : Str :=
@@ -96,62 +109,48 @@ def dotSuffix (name suffix : Option Str) : Str :=
     if n.isEmpty || sfx.isEmpty then [] else if sfx.head? == some DOT then sfx else DOT :: sfx
   | _, _ => []
 
-/-- main file: directories from last to first; stops at the first file that exists -/
-def readMain (ctx : RdCtx) (join python : Bool) (name sfx delim comment : Str) :
+/-- Candidate paths of the main file: `<dir>/<name><.suffix>` from the last directory to the first. -/
+def mainCandidates (dirs : List Str) (name sfx : Str) : List Str :=
+  dirs.reverse.map (fun d => d ++ SLASH :: name ++ sfx)
+
+/-- The main file: the candidates in order, "file not found" passes on to the next one, the first
+    success or other error ends the search (`none` = no main file). -/
+def readFirst (ctx : RdCtx) (join python : Bool) (delim comment : Str) :
     RdState → List Str → RdState × Except Err (Option KeyFile)
   | s, [] => (s, .ok none)
-  | s, d :: ds =>      -- `d :: ds` is the reversed directory list
-    let (s, r) := readFileCB ctx s join python (d ++ SLASH :: name ++ sfx) delim comment
+  | s, p :: ps =>
+    let (s, r) := readFileCB ctx s join python p delim comment
     match r with
     | .ok kf => (s, .ok (some kf))
-    | .error .nofile => readMain ctx join python name sfx delim comment s ds
+    | .error .nofile => readFirst ctx join python delim comment s ps
     | .error e => (s, .error e)
 
-/-- `check_conf_dir` on the sorted directory entries -/
-def readDropins (ctx : RdCtx) (join python : Bool) (dir sfx delim comment : Str) :
-    RdState → List Str → RdState × Except Err (List KeyFile)
-  | s, [] => (s, .ok [])
-  | s, n :: ns =>
-    if sfx.length < n.length && endsWith n sfx then
-      let (s, r) := readFileCB ctx s join python (dir ++ SLASH :: n) delim comment
-      match r with
-      | .error e => (s, .error e)
-      | .ok kf =>
-        let (s, r2) := readDropins ctx join python dir sfx delim comment s ns
-        match r2 with
-        | .error e => (s, .error e)
-        | .ok kfs => (s, .ok (kf :: kfs))
-    else readDropins ctx join python dir sfx delim comment s ns
+/-- Entries of one drop-in directory that carry the suffix, in `alphasort` order, as paths.
+    (A missing directory has none.  Reading files does not change the tree, so the directory
+    listings can be taken before the reads.) -/
+def dropinsOfDir (fs : FS) (dir sfx : Str) : List Str :=
+  match fs.scandir dir with
+  | none => []
+  | some names => (names.filter (fun n => sfx.length < n.length && endsWith n sfx)).map (fun n => dir ++ SLASH :: n)
 
-/-- `traverse_conf_dirs`: every postfix of one layer directory -/
-def readPostfixes (ctx : RdCtx) (join python : Bool) (projectPath sfx delim comment : Str) :
+/-- All drop-in paths in processing order: layer by layer (first directory first), per layer the
+    postfix directories in their order (`traverse_conf_dirs` / `check_conf_dir`). -/
+def dropinPaths (fs : FS) (dirs : List Str) (name sfx : Str) (postfixes : List Str) : List Str :=
+  dirs.flatMap (fun d => postfixes.flatMap (fun q => dropinsOfDir fs (d ++ SLASH :: name ++ q) sfx))
+
+/-- Read the files one after the other; the first error ends the read and is the result. -/
+def readSeq (ctx : RdCtx) (join python : Bool) (delim comment : Str) :
     RdState → List Str → RdState × Except Err (List KeyFile)
   | s, [] => (s, .ok [])
-  | s, q :: qs =>
-    let dir := projectPath ++ q
-    let (s, r) := match ctx.fs.scandir dir with
-      | none => (s, Except.ok [])
-      | some names => readDropins ctx join python dir sfx delim comment s names
+  | s, p :: ps =>
+    let (s, r) := readFileCB ctx s join python p delim comment
     match r with
     | .error e => (s, .error e)
-    | .ok kfs =>
-      let (s, r2) := readPostfixes ctx join python projectPath sfx delim comment s qs
+    | .ok kf =>
+      let (s, r2) := readSeq ctx join python delim comment s ps
       match r2 with
       | .error e => (s, .error e)
-      | .ok more => (s, .ok (kfs ++ more))
-
-def readLayers (ctx : RdCtx) (join python : Bool) (name sfx delim comment : Str) (postfixes : List Str) :
-    RdState → List Str → RdState × Except Err (List KeyFile)
-  | s, [] => (s, .ok [])
-  | s, d :: ds =>
-    let (s, r) := readPostfixes ctx join python (d ++ SLASH :: name) sfx delim comment s postfixes
-    match r with
-    | .error e => (s, .error e)
-    | .ok kfs =>
-      let (s, r2) := readLayers ctx join python name sfx delim comment postfixes s ds
-      match r2 with
-      | .error e => (s, .error e)
-      | .ok more => (s, .ok (kfs ++ more))
+      | .ok kfs => (s, .ok (kf :: kfs))
 
 /-- `readConfigHistoryWithCallback` -/
 def readHistory (ctx : RdCtx) (s : RdState) (dirs : List Str) (name suffix : Option Str)
@@ -167,12 +166,12 @@ def readHistory (ctx : RdCtx) (s : RdState) (dirs : List Str) (name suffix : Opt
     let sfx := dotSuffix name suffix
     let (s, main) :=
       if nm.isEmpty then (s, Except.ok none)
-      else readMain ctx join python nm sfx delim comment s dirs.reverse
+      else readFirst ctx join python delim comment s (mainCandidates dirs nm sfx)
     match main with
     | .error e => (s, .error (e, false))
     | .ok main =>
       let postfixes := if confDirs.isEmpty then [sfx ++ [0x2e, 0x64] /- ".d" -/] else confDirs
-      let (s, r) := readLayers ctx join python nm sfx delim comment postfixes s dirs
+      let (s, r) := readSeq ctx join python delim comment s (dropinPaths ctx.fs dirs nm sfx postfixes)
       match r with
       | .error e => (s, .error (e, true))
       | .ok drops =>
@@ -212,19 +211,20 @@ def prepareConfig (kf : KeyFile) (project usrSubdir name : Option Str) : KeyFile
   let dropinOnly := match name with
     | none => true
     | some n => n.isEmpty
-  let (name', project', kf) :=
-    if dropinOnly then (project, (none : Option Str), { kf with confDirs := [[0x2e, 0x64] /- ".d" -/] }) else (name, project, kf)
+  let kf1 : KeyFile := if dropinOnly then { kf with confDirs := [[0x2e, 0x64] /- ".d" -/] } else kf
+  let name' := if dropinOnly then project else name
+  let project' : Option Str := if dropinOnly then none else project
   let usr := usrSubdir.getD []
-  let run := [0x2f, 0x72, 0x75, 0x6e] /- "/run" -/
-  let etc := [0x2f, 0x65, 0x74, 0x63] /- "/etc" -/
+  let run : Str := [0x2f, 0x72, 0x75, 0x6e] /- "/run" -/
+  let etc : Str := [0x2f, 0x65, 0x74, 0x63] /- "/etc" -/
   let dirs : List Str :=
-    match kf.rootPrefix, project' with
+    match kf1.rootPrefix, project' with
     | some r, some p => [r ++ SLASH :: usr ++ SLASH :: p, r ++ SLASH :: run ++ SLASH :: p, r ++ SLASH :: etc ++ SLASH :: p]
     | some r, none => [r ++ usr, r ++ run, r ++ etc]
     | none, some p => [usr ++ SLASH :: p, run ++ SLASH :: p, etc ++ SLASH :: p]
     | none, none => [usr, run, etc]
-  let kf := if kf.parseDirs.isEmpty then { kf with parseDirs := dirs } else kf
-  (kf, name')
+  let kf2 : KeyFile := if kf1.parseDirs.isEmpty then { kf1 with parseDirs := dirs } else kf1
+  (kf2, name')
 
 /-- `econf_readConfig[WithCallback]`.  `slot` is the caller's object (`none` = NULL pointer).
     Returns the new content of the caller's pointer. -/
